@@ -52,6 +52,9 @@ def defaulted_attributes(class_: Type) -> Dict[str, Any]:
     result = dict()     # type: Dict[str, Any]
     for i, default in enumerate(defaults):
         arg_name = argspec.args[first_optional + i]
+        if arg_name == '_yatiml_extra':
+            # holds the extra attributes, it is not an attribute itself
+            continue
         if arg_name in user_defaults:
             default = user_defaults[arg_name]
         result[arg_name] = default
